@@ -63,6 +63,8 @@ type Reader struct {
 	crc   hash.Hash32
 	err   error
 	nread uint64
+	// compressed stream as seen by the sink of OpenAndTeeRaw
+	raw io.Reader
 }
 
 func (f *File) readLocalHeader() error {
@@ -371,8 +373,10 @@ func (f *File) OpenAndTeeRaw(sink io.Writer) (*Reader, error) {
 		pos := int64(f.Offset) + fileHeaderLen + int64(f.lfh.FilenameLen) + int64(f.lfh.ExtraLen)
 		r = io.NewSectionReader(f.r, pos, int64(f.CompressedSize))
 	}
+	var raw io.Reader
 	if sink != nil {
 		r = io.TeeReader(r, sink)
+		raw = r
 	}
 	crc := crc32.NewIEEE()
 	var rc io.ReadCloser
@@ -384,7 +388,7 @@ func (f *File) OpenAndTeeRaw(sink io.Writer) (*Reader, error) {
 	default:
 		return nil, errors.New("unsupported zip compression")
 	}
-	return &Reader{f: f, rc: rc, crc: crc}, nil
+	return &Reader{f: f, rc: rc, crc: crc, raw: raw}, nil
 }
 
 func (r *Reader) Read(d []byte) (int, error) {
@@ -403,6 +407,14 @@ func (r *Reader) Read(d []byte) (int, error) {
 	}
 	if r.nread != r.f.UncompressedSize {
 		return 0, io.ErrUnexpectedEOF
+	}
+	if r.raw != nil {
+		// the decompressor stops at the end of its stream; the sink is
+		// promised every byte of the member, also what follows that point
+		if _, err2 := io.Copy(io.Discard, r.raw); err2 != nil {
+			r.err = err2
+			return n, err2
+		}
 	}
 	if r.f.lfh.Flags&0x8 != 0 {
 		if err2 := r.f.readDataDesc(); err2 != nil {
